@@ -101,6 +101,15 @@ BUILT = {
             "the mapping is also forced to move on every growth so that a stale pointer faults",
             "mremap is made to move via MREMAP_FIXED (legal under MREMAP_MAYMOVE); code runs in a child after the byte "
             "comparison", "DESIGN.md section 6, C08"),
+    "C09": ("model_checking",
+            "exhaustive enumeration of input strings (all byte strings <= 2, all strings <= 5/6 over a structural alphabet, "
+            "all token sequences <= 4/5, all mnemonic x operand-menu lines, every length around each fixed parser array) "
+            "executed in-process on ASan+UBSan and MemorySanitizer builds of the real parser under 6 settings, with worker "
+            "restart behind every aborting / faulting / hanging input",
+            "quick 21.6M / thorough 520M executions; any sanitizer report, fatal signal, return value other than 0/1 or a "
+            "20 s hang is a violation attributed to the exact input",
+            "sanitizers see what gcc 12 / clang 14 instrument at -O1; strings beyond the stated bounds are not covered",
+            "DESIGN.md section 6, C09"),
     "C10": ("model_checking",
             "bounded-exhaustive enumeration of malformed inputs on the real assembler: every named mnemonic x all 781 "
             "operand-kind tuples, every single-character mutation of register names in 5 positions, invalid scales, "
@@ -144,6 +153,13 @@ BUILT = {
             "calls; a read past the end of the text faults deterministically",
             "file contents are valid programs of nop / comment filler; permission-based unreadable files not covered (may "
             "run as root)", "DESIGN.md section 6, C19"),
+    "C20": ("model_checking",
+            "exhaustive enumeration of asmline invocations (programs x mode-flag sets x outputs x source) as real processes, "
+            "each compared with the same program through the library API under the setter calls the flag documents",
+            "quick 1.2k / thorough 10k process runs: binary files, -p hex (chunk rows), -b count, -r value and exit status "
+            "must reflect the library result; stdin must equal FILE",
+            "conflicting flags of one option dimension are not combined (no documented order); -r programs end in ret",
+            "DESIGN.md section 6, C20"),
     "C12": ("model_checking",
             "explicit-state BFS over the real setter API to a fixpoint, lockstep with a documentation model; plus all "
             "setter sequences up to depth 3/4 and all two-instance interleavings up to depth 2/3, exhaustively",
